@@ -22,11 +22,11 @@ Theorems (statements readable on their own):
 * `Full_aux_same_tag`, `Full_aux_pending`
                       those attributes are the ones of the lexeme being handled
 * `Full_elemAct_faithful`, `Full_endTagHandler_faithful`, `Full_unhash`, `Full_unhash_gen`   adapters are faithful
-* `Full_vec_loops_never_fail`, `Full_handleEnd_clean`; `Full_clean_statement` (not proved)
+* `Full_vec_loops_never_fail`, `Full_handleEnd_clean`; `Full_not_ctlClean`; `Full_no_panic_statement` (not proved); `C06_real_output`
 -/
 import LolHtml.Model.FullCtl
 import LolHtml.Lemmas.FullObs
-import LolHtml.Lemmas.InvDisp
+import LolHtml.Lemmas.InvStream
 import LolHtml.Lemmas.FullUnhash
 import LolHtml.Thm.C01
 import LolHtml.Thm.C11
@@ -528,15 +528,53 @@ theorem Full_handleEnd_clean (cfg : Cfg) (s : FullSt cfg) (hf : s.1.fault = none
   · simpa using he'.symm
   · simp at he'
 
-/-- **Full statement** (NOT proved): the real controller never returns a panic / internal-class error
-(`CtlClean`, the hypothesis of C15's theorems). Proved parts: `Full_vec_loops_never_fail`,
-`Full_handleEnd_clean`. Missing: that the VM's explicit failure branches (`typedCounterMissing`,
-`instrIndex`, `openNameCountUnderflow`), the dispatcher's locator / match-id / refcount branches
-(`badLocator`, `badMatchId`, `itemUnderflow`, `removedUnderflow`) and the glue's own consistency
-checks (descs parallel to the VM stack, payload present, slices in range) are unreachable — this needs
-the refcount invariant of pkg scope (C05_refcount) and the stack / program invariants of pkg selvm
-transported to `St`, and C15's lexeme-range invariant for the slices. Lane `full`: never observed. -/
-def Full_clean_statement : Prop := ∀ cfg : Cfg, CtlClean (fullCtl cfg)
+/-- **Full_not_ctlClean** (a finding about C15's hypothesis, not about the Rust). `CtlClean`, the
+hypothesis of `C15_no_panic`, quantifies over ALL controller states; the real controller cannot
+satisfy it: answering an aux-info request in a state that has none pending is the
+`debug_assert!(false)` / `ActionError::internal("vm req without vm")` branch of
+rewrite_controller.rs:110-113. The dispatcher only calls the continuation after an `InfoRequest`, so the
+branch is unreachable in runs — but C15 would need its hypothesis relativised to reachable states
+to apply to the real controller. -/
+theorem Full_not_ctlClean (cfg : Cfg) : ¬ CtlClean (fullCtl cfg) := by
+  intro h
+  have := h.auxInfo (FullSt.init cfg) ⟨[], [], false⟩ (.internal "vm req without vm")
+  have hp : (St.init cfg).pending = none := rfl
+  have he : ((fullCtl cfg).auxInfo (FullSt.init cfg) ⟨[], [], false⟩).2 = .error (.internal "vm req without vm") := by
+    show (auxInfo (St.init cfg) ⟨[], [], false⟩).2 = _
+    unfold auxInfo
+    split
+    · rename_i hv hq; rw [hp] at hq; cases hq
+    · rfl
+  exact this he
+
+/-- **Full statement** (NOT proved): no call of the whole rewriter model ever returns a panic /
+internal-class result. Proved parts: `Full_vec_loops_never_fail`, `Full_handleEnd_clean`; for
+scripted (parameter) controllers C15 proves it up to two sites. Missing for the real controller:
+unreachability of the VM's explicit failure branches (`typedCounterMissing`, `instrIndex`,
+`openNameCountUnderflow`), of the dispatcher's locator / match-id / refcount branches (`badLocator`,
+`badMatchId`, `itemUnderflow`, `removedUnderflow`), of the glue's own consistency checks (descs parallel
+to the VM stack, payload present, slices in range, request pending), which needs the refcount invariant
+of pkg scope (C05_refcount) and the stack / program invariants of pkg selvm transported to `St`, C15's
+lexeme-range invariant for the slices, and C15 itself relativised to reachable controller states
+(`Full_not_ctlClean`). Lane `full`: never observed in > 140 000 cases. -/
+def Full_no_panic_statement : Prop :=
+  ∀ (cfg : Cfg) (settings : Settings) (chunks : List Bytes),
+    ∀ x ∈ (run (fullWorld Gen.Syntax.table Gen.Tags.cfg cfg)
+        (Rewriter.new (fullWorld Gen.Syntax.table Gen.Tags.cfg cfg) (FullSt.init cfg) settings) chunks).2,
+      Model.CallOK (fun _ => False) x
+
+/-- **C06_real_output** (the output half of handler independence, for observers): two configurations
+whose scripts do not mutate — any selectors, any closures, hence any switching between tag scanner and
+lexer — produce the same output on the same chunks whenever both runs succeed. -/
+theorem C06_real_output (cfg1 cfg2 : Cfg) (ho1 : cfg1.Observing) (ho2 : cfg2.Observing) (s1 s2 : Settings)
+    (chunks : List Bytes)
+    (hok1 : ∀ x ∈ (run (fullWorld tbl tags cfg1) (Rewriter.new (fullWorld tbl tags cfg1) (FullSt.init cfg1) s1) chunks).2,
+      x = CallRes.ok)
+    (hok2 : ∀ x ∈ (run (fullWorld tbl tags cfg2) (Rewriter.new (fullWorld tbl tags cfg2) (FullSt.init cfg2) s2) chunks).2,
+      x = CallRes.ok) :
+    sinkBytes (run (fullWorld tbl tags cfg1) (Rewriter.new (fullWorld tbl tags cfg1) (FullSt.init cfg1) s1) chunks).1.sink =
+    sinkBytes (run (fullWorld tbl tags cfg2) (Rewriter.new (fullWorld tbl tags cfg2) (FullSt.init cfg2) s2) chunks).1.sink := by
+  rw [C01_real tbl tags cfg1 ho1 s1 chunks hok1, C01_real tbl tags cfg2 ho2 s2 chunks hok2]
 
 /-- **Full_unhash.** For every tag name that `LocalNameHash` can represent (letters and the digits
 1–6, short enough, first character a letter — which the tokenizer guarantees), the name bytes the glue
